@@ -237,6 +237,32 @@ def gen_driver(sig, theory_name, module_text):
     w("  out.push_str(\"}}\");")
     w("}")
     w("static TYPE_NAMES: &[&str] = &[%s];" % ", ".join(rs_str(t) for t in types))
+    # point-query sweep: every predicate / function on every tuple of allocated ids (roots and
+    # non-roots) while the product stays below a limit, otherwise a deterministic sample
+    w("fn tuples_over(m: &M, cols: &[&str], limit: usize) -> (Vec<Vec<u32>>, bool) {")
+    w("  let sizes: Vec<usize> = cols.iter().map(|t| m.verif_alloc(t)).collect();")
+    w("  let mut total: usize = 1; for s in &sizes { total = total.saturating_mul(*s); }")
+    w("  let mut out = vec![]; if total == 0 { return (out, false); }")
+    w("  let stride = if total <= limit { 1 } else { total / limit + 1 };")
+    w("  let mut i = 0usize; while i < total { let mut rem = i; let mut t = vec![0u32; cols.len()]; for c in (0..cols.len()).rev() { t[c] = (rem % sizes[c]) as u32; rem /= sizes[c]; } out.push(t); i += stride; }")
+    w("  (out, stride > 1) }")
+    w("fn sweep_json(m: &M, out: &mut String) {")
+    w("  let mut truncated = false;")
+    w("  out.push_str(\"{\\\"preds\\\":{\");")
+    for i, (p, cols) in enumerate(sorted(sig.preds.items())):
+        w("  out.push_str(%s); { let (ts, tr) = tuples_over(m, &[%s], 2048); truncated |= tr; out.push('['); let mut first = true; for t in ts.iter() { if do_pred(m, %s, t) { if !first { out.push(','); } first = false; vec_json(t, out); } } out.push(']'); }" % (
+            rs_str(("," if i else "") + '"%s":' % p), ", ".join(rs_str(c) for c in cols), rs_str(p)))
+    w("  out.push_str(\"},\\\"funcs\\\":{\");")
+    for i, (f, (cols, res)) in enumerate(sorted(sig.funcs.items())):
+        w("  out.push_str(%s); { let (ts, tr) = tuples_over(m, &[%s], 2048); truncated |= tr; out.push('['); let mut first = true; for t in ts.iter() { if let Some(r) = do_eval(m, %s, t) { if !first { out.push(','); } first = false; let mut row = t.clone(); row.push(r); vec_json(&row, out); } } out.push(']'); }" % (
+            rs_str(("," if i else "") + '"%s":' % f), ", ".join(rs_str(c) for c in cols), rs_str(f)))
+    w("  out.push_str(\"},\\\"cases\\\":{\");")
+    for i, e in enumerate(sig.enums.values()):
+        E = e["name"]
+        w("  out.push_str(%s); { out.push('['); let n = m.verif_alloc(%s); for id in 0..n as u32 { if id > 0 { out.push(','); } out.push_str(&case_json(%s, m, id, true)); } out.push(']'); }" % (
+            rs_str(("," if i else "") + '"%s":' % E), rs_str(E), rs_str(E)))
+    w("  write!(out, \"}},\\\"truncated\\\":{}}}\", truncated).unwrap();")
+    w("}")
     w(DRIVER_MAIN)
     return "\n".join(W) + "\n"
 
@@ -288,6 +314,7 @@ fn cond_event(m: &M, k: u32, holds: bool, capped: bool) {
     write!(out, "{{\"e\":\"cond\",\"iter\":{},\"holds\":{},\"capped\":{}", k, holds, capped).unwrap();
     if obs >= 2 { out.push_str(",\"public\":"); dump_public(m, &mut out); }
     if obs >= 3 { out.push_str(",\"private\":"); m.verif_dump_private(&mut out); }
+    if obs >= 4 { out.push_str(",\"sweep\":"); sweep_json(m, &mut out); }
     out.push('}');
     emit(&out);
 }
@@ -418,6 +445,7 @@ fn main() {
                         match r { Some(x) => write!(out, ",\"ret\":{}", x).unwrap(), None => out.push_str(",\"ret\":null") } }
                 "dump" => { out.push_str("\"public\":"); dump_public(&m, &mut out); }
                 "probe" => { out.push_str("\"public\":"); dump_public(&m, &mut out); out.push_str(",\"private\":"); m.verif_dump_private(&mut out); }
+                "sweep" => { out.push_str("\"public\":"); dump_public(&m, &mut out); out.push_str(",\"private\":"); m.verif_dump_private(&mut out); out.push_str(",\"sweep\":"); sweep_json(&m, &mut out); }
                 "regs" => { out.push_str("\"regs\":{"); for (j, (k, (_, id))) in st.regs.iter().enumerate() { if j > 0 { out.push(','); } write!(out, "{}:{}", jstr(k), id).unwrap(); } out.push('}'); }
                 _ => panic!("unknown op {}", op),
             }
@@ -500,7 +528,7 @@ def compile_theory(th, hooks=False, mode="module", rtlib=None, rustc=("rustc",),
         f.write(drv)
     driver = os.path.join(d, "driver")
     cmd = list(rustc) + [os.path.join("out", "driver.rs"), "--edition=2021", "-C", "opt-level=0", "-C", "debug-assertions=on",
-                         "-C", "debuginfo=0", "-A", "warnings", "--extern", "eqlog_runtime=" + rtlib, "-L", os.path.dirname(rtlib), "-o", driver] + list(extra_rustc)
+                         "-C", "debuginfo=0", "-C", "codegen-units=1", "-A", "warnings", "--extern", "eqlog_runtime=" + rtlib, "-L", os.path.dirname(rtlib), "-o", driver] + list(extra_rustc)
     if mode == "component":
         comp = os.path.join(d, "comp", name + ".eql")
         libs = sorted(x for x in os.listdir(comp) if x.endswith(".rlib"))
